@@ -60,6 +60,17 @@ def cases(rng, tier):
         s = rng.choice(["EKEKGGEKRDGG", "GEKGDKGEKG", "KEKEGGDRKE"])
         nb = rng.choice([2, 3])
         yield Case(["wlrun %s %d 0 1 6000 1/4 501/1000 %d 2600 -" % (s, nb, rng.randint(0, 10 ** 6))], {"kind": "long-first-iteration"})
+    # ... and with more bins, where some in-range bin is proposed for the first time after the occupied bin's g has passed 710
+    for i in range(3 if tier == "quick" else 10):
+        s = rng.choice(["EKEKAGSGDRDR", "EKEKGGEKRDGG", "KEKEGGDRKEAG"])
+        yield Case(["wlrun %s %d 0 1 9000 1/4 501/1000 %d 2600 -" % (s, rng.choice([5, 6, 8]), rng.randint(0, 10 ** 6))], {"kind": "long-first-iteration-many-bins"})
+    # scripted proposals: the occupied bin is proposed 720-900 times (g passes 710 there), then an in-range bin that was never visited
+    # (g_old - g_new > 709.78: exp() of it overflows a double; the acceptance probability is 1), then back and forth
+    for low, mid in (("EKEKAGSGDRDR", "EEDDAGSGKKRR"), ("EKEKAGSGDRDR", "DDEEAGSGRRKK"), ("KEKEGGDRKEAG", "KKKGGEEEDRAG")):
+        n1 = rng.randint(720, 900)
+        for nb in ((4, 5) if tier == "quick" else (3, 4, 5, 8)):
+            yield Case(["wlrun %s %d 0 1 9000 1/4 501/1000 %d %d - script:%s*%d,%s*2,%s*3,%s*1" % (low, nb, rng.randint(0, 10 ** 6), n1 + 40, low, n1, mid, low, mid)],
+                       {"kind": "scripted-proposals-large-g-difference"})
     # the SECOND run() on one machine obeys the same rules from the same initial state
     for i in range(3 if tier == "quick" else 12):
         s = rng.choice(["EKEKEKRDQGSA", "EKEKGGEKRDGG", "KEKEGGDRKE"])
